@@ -127,6 +127,12 @@ def gen_c01(tier, seed):
         scens.append({"id": sid("C01", "big", i), "props": ["C01"], "mode": "big", "tags": ["big"],
                       "steps": [{"op": "tree", "tree": cvlib.big_tree(rng)}, bk(rng.choice(cvlib.BIG_SETTINGS)), {"op": "restore", "band": 0},
                                 {"op": "validate", "quick": False}]})
+    # default settings and more than 20 MiB of small files (a combined block overruns max_block_size)
+    for i in range(1 if tier == "quick" else 3):
+        t = [node("/", "Dir")] + [node("/m%02d" % j, "File", cg=[["r", 999000 + 31 * j, 200 + j + i]], mt=(1600008000 + j, 0)) for j in range(rng.choice([22, 25]))]
+        scens.append({"id": sid("C01", "overrun", i), "props": ["C01"], "mode": "big", "tags": ["big", "default-settings"],
+                      "steps": [{"op": "tree", "tree": t}, bk({"H": 100000, "M": 20 << 20, "S": 1 << 20}), {"op": "restore", "band": 0},
+                                bk({"H": 100000, "M": 20 << 20, "S": 1 << 20}), {"op": "restore", "band": 1}, {"op": "validate", "quick": False}]})
     # many entries: more files, hunks and blocks than any batch, window or cache in the program
     for i in range(2 if tier == "quick" else 12):
         nfiles = rng.choice([130, 210, 300])
@@ -893,6 +899,24 @@ def gen_c07(tier, seed):
                       "screen": 3, "screen_cap": 800 if tier == "quick" else 20000,
                       "then": [{"op": "restore_all"}]})
         scens.append({"id": sid("C07", "race", i), "props": ["C07"], "mode": "conc", "tags": ["backup-vs-backup"], "steps": steps})
+    # a lock that is not one's own (the stale lock of a killed delete, or that of a gc still running) is
+    # left alone by everything but --break-lock: dry runs, refused deletes, backups
+    for i in range(6 if tier == "quick" else 60):
+        steps, o, nb = conc_archive(rng)
+        steps = steps[:-1]
+        steps += [{"op": "delete", "bands": [0], "dry": False, "crash_at": rng.randrange(5, 12)},
+                  {"op": "delete", "bands": rng.choice([[0], []]), "dry": True}, {"op": "versions"},
+                  {"op": "delete", "bands": [], "dry": False}, bk(o), {"op": "versions"},
+                  {"op": "delete", "bands": [], "dry": rng.random() < 0.5, "break_lock": True}, {"op": "restore_all"}]
+        scens.append({"id": sid("C07", "stale-lock", i), "props": ["C07"], "mode": "clean", "tags": ["stale-lock"], "steps": steps})
+    for i in range(4 if tier == "quick" else 40):
+        steps, o, nb = conc_archive(rng)
+        steps = steps[:-1]
+        steps.append({"op": "conc_sweep", "actors": [{"op": "delete", "bands": rng.choice([[0], []]), "actor": "gc1"},
+                                                     {"op": "delete", "bands": rng.choice([[0], []]), "dry": True, "actor": "gc2"}],
+                      "preemptions": 2, "sample": 40 if tier == "quick" else 600, "seed": seed * 100 + i,
+                      "then": [{"op": "restore_all"}]})
+        scens.append({"id": sid("C07", "gc-vs-dryrun", i), "props": ["C07"], "mode": "conc", "tags": ["gc-vs-gc", "dry-run"], "steps": steps})
     # two backups that both need a content whose block file is the zero-length leftover of a killed write
     for i in range(6 if tier == "quick" else 60):
         o = rng.choice([{"H": 1000, "M": 1000, "S": 0}, {"H": 2, "M": 3, "S": 0}, {"H": 1000, "M": 1000, "S": 1}])
@@ -974,6 +998,13 @@ def gen_c09(tier, seed):
                 out.append({"op": "validate", "quick": False})
                 out.append({"op": "validate", "quick": True})
         scens.append({"id": sid("C09", "healthy", i), "props": ["C09"], "mode": "clean", "tags": ["healthy"], "steps": out})
+    # default settings and more than 20 MiB of small files: a combined block that overruns max_block_size
+    for i in range(1 if tier == "quick" else 3):
+        t = [node("/", "Dir")] + [node("/m%02d" % j, "File", cg=[["r", 1000000 + 17 * j, 100 + j + i]], mt=(1600008000 + j, 0)) for j in range(rng.choice([22, 24]))]
+        t.append(node("/tiny", "File", b"x"))
+        scens.append({"id": sid("C09", "overrun", i), "props": ["C09"], "mode": "big", "tags": ["healthy", "big", "default-settings"],
+                      "steps": [{"op": "tree", "tree": t}, bk({"H": 100000, "M": 20 << 20, "S": 1 << 20}),
+                                {"op": "validate", "quick": False}, {"op": "validate", "quick": True}, {"op": "restore", "band": 0}]})
     # more blocks than any batch / window / cache a validator may use (150-260 one-block files): damage to
     # random blocks must be reported whichever of them it hits
     for i in range(2 if tier == "quick" else 12):
@@ -1095,6 +1126,14 @@ def gen_c11(tier, seed):
         o = {"H": rng.choice([1, 2, 1000]), "M": 1000, "S": 1000}
         scens.append({"id": sid("C11", "nonutf8", i), "props": ["C11"], "mode": "clean", "tags": ["walk", "non-utf8-names"],
                       "steps": [{"op": "tree", "tree": t}, {"op": "walk"}, bk(o), {"op": "list", "band": 0}]})
+    # settings under which entries reach the index writer by different routes (queued directly, through
+    # the small-file combiner, after a combined block filled): whatever the route, what is written is ordered
+    for i in range(16 if tier == "quick" else 200):
+        _, t, o = shape_tree(rng) if i % 2 else ("combine",) + combine_tree(rng)
+        t2 = mut(rng, t, maxlen=3, nmut=2)
+        scens.append({"id": sid("C11", "routes", i), "props": ["C11"], "mode": "clean", "tags": ["walk", "index-routes"],
+                      "steps": [{"op": "tree", "tree": t}, {"op": "walk"}, bk(o), {"op": "list", "band": 0},
+                                {"op": "tree", "tree": t2}, bk(o), {"op": "list", "band": 1}]})
     n = 80 if tier == "quick" else 1000
     for i in range(n):
         t = random_tree(rng, nmax=rng.choice([5, 9, 14, 20]), depth=4, names=names, pre_epoch=False, maxlen=4)
